@@ -1,6 +1,7 @@
 from __future__ import annotations
 
 import numbers
+import os as _os
 import pathlib
 import sys
 import mmap
@@ -1530,6 +1531,9 @@ class Bits:
         """
         # If the bitstring is file based then we don't want to read it all in to memory first.
         chunk_size = 8 * 100 * 1024 * 1024  # 100 MiB
+        if _os.environ.get('BITSTRING_VERIF') == '1' and 'BITSTRING_VERIF_TOFILE_CHUNK_BITS' in _os.environ:
+            # Verification hook (inactive unless BITSTRING_VERIF=1): lets a test cross the chunk boundary with small data.
+            chunk_size = int(_os.environ['BITSTRING_VERIF_TOFILE_CHUNK_BITS'])
         for chunk in self.cut(chunk_size):
             f.write(chunk.tobytes())
 
